@@ -651,6 +651,12 @@ func buildLeaves() []*Leaf {
 		{Name: "*Level", Type: reflect.TypeOf((*Level)(nil)), Caps: CapRef | CapNamed,
 			Gen: func(r *fw.Rand, uniq int) reflect.Value { x := Level(uniq % 200); return rv(&x) }},
 		localNodePlainLeaf(), localNodeRefsLeaf(),
+		// a map keyed by pointers: the keys are references too
+		{Name: "map[*int]string", Type: reflect.TypeOf(map[*int]string{}), Caps: CapRef,
+			Gen: func(r *fw.Rand, uniq int) reflect.Value {
+				a, b := uniq, -uniq
+				return rv(map[*int]string{&a: GenString(r, uniq), &b: "neg"})
+			}},
 		// a routing table: 150-250 entries pointing at 3 shared targets (many references to already-seen pointees)
 		{Name: "[]*Limits(fan-in)", Type: reflect.TypeOf([]*Limits{}), Caps: CapRef,
 			Gen: func(r *fw.Rand, uniq int) reflect.Value {
